@@ -87,7 +87,11 @@ def gen_network(rng, max_units, force=None):
             else:
                 layers.append({"t": a, "row": r})
             if rng.random() < 0.12 and units < max_units:
-                layers.append(dict(layers[-1]))      # the same neuron activated twice in a row (not idempotent for leaky / hard sigmoid)
+                rep = dict(layers[-1])      # the same neuron activated twice in a row (not idempotent for leaky / hard sigmoid)
+                if units % 2 == 0:
+                    # ... or by another kind of activation (round 8, C01-d8: ReLU after leaky ReLU is not redundant); no rng draw
+                    rep = {"t": {"leaky": "relu", "relu": "hardtanh", "hardtanh": "relu", "hardsigmoid": "relu"}[rep["t"]], "row": rep["row"]}
+                layers.append(rep)
                 units += 1
     if force == "duphead":
         # two identical logits (row and bias) under a head, below at least one activation: the head's comparison is constant on
